@@ -391,7 +391,11 @@ impl ZchState {
                         kb.press_key(OsCode::KEY_BACKSPACE)?;
                         kb.release_key(OsCode::KEY_BACKSPACE)?;
                     }
-                    self.zchd.zchd_characters_to_delete_on_next_activation = 0;
+                    // The reused common prefix stays on screen and is part of this activation's
+                    // output: a later activation in the same hold must erase it as well.
+                    self.zchd.zchd_characters_to_delete_on_next_activation = ZchOutput::display_len(
+                        &a.zch_output[..common_prefix_len_from_past_activation as usize],
+                    );
                     self.zchd.zchd_prior_activation_output_count =
                         ZchOutput::display_len(&a.zch_output);
                 } else {
